@@ -216,7 +216,80 @@ class BodyDataFinished(_Response):
                  "        self._bodyProtocol = None", "parked_or_reported_exactly_once_with_the_right_reason", "Response._bodyDataFinished_CONNECTED")]
 
 
-CONTRACTS = [DeliverInitial, DeliverDeferredClose, DeliverBodyRefused, BodyDataReceived, BodyDataFinished]
+
+# -- the protocol side: handing the connection back while the application is being told the body is over -----------
+
+
+def parser_connection_lost(I, parser, reason):
+    """parser.connectionLost(reason) ends the body: it calls the application's body protocol, which may issue the next
+    request on this very protocol (a keep-alive pool does).  Recorded with the protocol's state at that moment; the fork
+    `reenter` then installs what a nested request() installs."""
+    c = ctx()
+    g = c.ghost
+    p = g["$objs"]["p"]
+    c.emit("parser.connectionLost", parser, (reason,), {}, NSView({"p": snapshot_of(p)}))
+    if g["reenter"]:
+        new = dict(_currentRequest=g["next_request"], _finishedRequest=g["next_finished"], _responseDeferred=g["next_response"],
+                   _parser=g["next_parser"], _transportProxy=g["next_proxy"])
+        for k, v in new.items():
+            if c.concrete:
+                setattr(p, k, v)
+            else:
+                p._fields[k] = v
+    c.ghost.setdefault("$after_callout", []).append(("parser.connectionLost", NSView({"p": snapshot_of(p)})))
+
+
+class DisconnectParser(Contract):
+    """HTTP11ClientProtocol._disconnectParser: everything that belongs to the finished request is dropped and the
+    parser is cut off from the transport *before* the parser -- and through it the application -- is told; nothing of the
+    protocol is written afterwards (the application may have started the next request: seeded change C23-3)."""
+    prop = "C23"
+    module = M
+    function = "HTTP11ClientProtocol._disconnectParser"
+    differential = False
+    replay_decides = False  # the re-entrant request is not an input
+    calls = {"parser.connectionLost": parser_connection_lost,
+             "proxy.stopProxying": lambda I, o: ctx().emit("stopProxying", o, (), {}, NSView({"p": snapshot_of(ctx().ghost["$objs"]["p"])}))}
+    inputs = dict(has_parser=ForkBool(), reenter=ForkBool())
+
+    def setup(self, i):
+        p = self.make(_newclient.HTTP11ClientProtocol, _state="QUIESCENT",
+                      _parser=self.opaque("parser") if i.has_parser else None,
+                      _currentRequest=self.opaque("request") if i.has_parser else None,
+                      _finishedRequest=self.opaque("finished") if i.has_parser else None,
+                      _responseDeferred=self.opaque("responsed") if i.has_parser else None,
+                      _transportProxy=self.opaque("proxy") if i.has_parser else None,
+                      transport=self.opaque("transport"))
+        g = dict(reenter=i.reenter, next_request=self.opaque("request2"), next_finished=self.opaque("finished2"),
+                 next_response=self.opaque("responsed2"), next_parser=self.opaque("parser2"), next_proxy=self.opaque("proxy2"))
+        return dict(self=p, args=[self.opaque("reason")], objs=dict(p=p), ghost=g)
+
+    def bounded_inputs(self, tier):
+        return iter(())  # the real protocol is re-entered in the bounded class ReentrantNextRequest
+
+    raises = ()
+
+    def _order(S):
+        told = ev(S, "parser.connectionLost")
+        cut = ev(S, "stopProxying")
+        if not S.i.has_parser:
+            return len(S.trace) == 0
+        if len(told) != 1 or len(cut) != 1:
+            return False
+        at = told[0].snap.p
+        return band(S.trace.index(cut[0]) < S.trace.index(told[0]), at._parser is None, at._currentRequest is None,
+                    at._finishedRequest is None, at._responseDeferred is None, at._transportProxy is None)
+
+    ensures = dict(request_state_dropped_and_parser_cut_off_before_it_is_told=_order,
+                   nothing_written_after_the_parser_was_told=lambda S: unchanged_since_last_callout(
+                       S, "p", ("_parser", "_currentRequest", "_finishedRequest", "_responseDeferred", "_transportProxy", "_state")))
+    canaries = [("            self._currentRequest = None\n            self._finishedRequest = None\n            self._responseDeferred = None\n",
+                 "", "request_state_dropped_and_parser_cut_off_before_it_is_told"),
+                ("            parser.connectionLost(reason)", "            parser.connectionLost(reason)\n            self._currentRequest = None",
+                 "nothing_written_after_the_parser_was_told")]
+
+
+CONTRACTS = [DeliverInitial, DeliverDeferredClose, DeliverBodyRefused, BodyDataReceived, BodyDataFinished, DisconnectParser]
 BOUNDED = bounded("C23")
 _SCOPE = ('the real HTTP11ClientProtocol on a fake transport: ~420 hand-built and 200 h11-serialized responses truncated at every byte, delivered whole / bytewise / 2-way split, deliverBody called at five different times (one with a transport that hands held-back bytes over from inside resumeProducing), HTTP11ClientProtocol.abort() after every byte; oracle: generator tags and h11 as client')
 NOTES = dict(explanation="the Response state machine (body side) proved operation by operation; the parser, the protocol state machine and "
@@ -233,7 +306,10 @@ MANIFEST = dict(
          "afterwards; deliverBody calls makeConnection, hands over every buffered chunk exactly once in order (inductive over "
          "any number of chunks), and then either switches to CONNECTED before it resumes the transport or, if the end was "
          "parked, calls connectionLost exactly once with the parked reason; a second deliverBody is refused with nothing "
-         "done.  The parser, the protocol's state machine and the request Deferred are exercised in the bounded tier only: "
+         "done.  HTTP11ClientProtocol._disconnectParser is proved to have dropped every field of the finished request and "
+         "cut the parser off the transport before the parser (and through it the application) is told, and to write "
+         "nothing afterwards -- the application may start the next request from there.  The parser, the rest of the "
+         "protocol's state machine and the request Deferred are exercised in the bounded tier only: "
          + _SCOPE + ".",
     note="Trusted: pyvc, SMT solvers, protocol / transport as recorded call-outs.  Everything else: bounded, never counted as proved.",
     technique="contract-based deductive verification (complete case analysis of a state machine, inductive loops, call-out traces with state snapshots) + bounded exhaustive truncations of real responses",
